@@ -256,6 +256,9 @@ def rule_handwritten(prog, res):
         calls = [callee_of(t) for b, t in v.calls()]
         ok = any(c and c.endswith("ArrayString::<N>::try_push") for c in calls) and any(c == "core::str::<impl str>::chars" for c in calls) \
             and any(c == "core::result::Result::<T, E>::is_err" for c in calls) and len(v.loops()) == 1
+        # every character is offered: the loop is driven by chars() itself, not by an adaptor that drops or limits items (take / skip / filter ..)
+        adaptors = [c for c in calls if c and c.startswith("core::iter::Iterator::") and c.rsplit("::", 1)[1] not in ("next", "into_iter")]
+        ok = ok and not adaptors
         if not ok:
             ok = _delegates_to_from(v, FA(v, prog), "<util::array_string::ArrayString<N> as core::convert::From<&str>>::from")
         res.ob("Z-vis", "ArrayString visitor | pushes chars() until one does not fit (the longest fitting prefix; everything for a serialised value)", ok, str(calls), v.loc)
